@@ -39,6 +39,7 @@ type symType struct {
 type symFunc struct {
 	Sig     string   `json:"sig"`
 	Callees []string `json:"callees,omitempty"`
+	Callers []string `json:"callers,omitempty"` // top-level functions that call it or start it with go ("go:" prefix)
 }
 
 type symbols struct {
@@ -164,6 +165,32 @@ func (p *Prog) inventory() *symbols {
 		}
 		sf.Callees = sortedKeys(cs)
 		out.Funcs[funcKey(f)] = sf
+	}
+	callers := map[string]map[string]bool{}
+	for _, f := range p.Funcs {
+		tk := funcKey(top(f))
+		instrsOf(f, func(in ssa.Instruction) {
+			ci, ok := in.(ssa.CallInstruction)
+			if !ok {
+				return
+			}
+			sc := ci.Common().StaticCallee()
+			if sc == nil || sc.Parent() != nil || !p.InUniverse(sc) {
+				return
+			}
+			k := funcKey(sc)
+			if callers[k] == nil {
+				callers[k] = map[string]bool{}
+			}
+			if _, isGo := ci.(*ssa.Go); isGo {
+				callers[k]["go:"+tk] = true
+			} else {
+				callers[k][tk] = true
+			}
+		})
+	}
+	for k, sf := range out.Funcs {
+		sf.Callers = sortedKeys(callers[k])
 	}
 	return out
 }
@@ -346,11 +373,11 @@ func (p *Prog) installRenames() []string {
 				if isExportedName(on) || isExportedName(nn) {
 					continue // exported names are API: a different name is a different function
 				}
-				sc := 0.7*jaccard(bf.Callees, cf.Callees) + 0.3*nameSim(on, nn)
+				sc := 0.35*jaccard(bf.Callees, cf.Callees) + 0.35*jaccard(bf.Callers, cf.Callers) + 0.3*nameSim(on, nn)
 				cands = append(cands, renameCand{ok_, nk, sc})
 			}
 		}
-		m := assign(cands, 0.35)
+		m := assign(cands, 0.3)
 		if len(m) > 0 {
 			for _, f := range p.Funcs {
 				if f.Parent() != nil {
@@ -358,8 +385,9 @@ func (p *Prog) installRenames() []string {
 				}
 				if old, ok := m[funcKey(f)]; ok {
 					if fo, ok := f.Object().(*types.Func); ok && fo != nil {
+						now := funcKey(f)
 						canonFuncName[fo] = old[strings.LastIndex(old, ".")+1:]
-						notes = append(notes, fmt.Sprintf("function %s is taken for the renamed %s", funcKey(f), old))
+						notes = append(notes, fmt.Sprintf("function %s is taken for the renamed %s", now, old))
 					}
 				}
 			}
@@ -395,6 +423,30 @@ func (p *Prog) installRenames() []string {
 				cset[f.Name] = f
 			}
 			var cands []renameCand
+			// ordinal of a field among the fields that kept their names: a rename usually keeps the position
+			ordinal := func(fs []symField, name string, other map[string]symField) int {
+				n := 0
+				for _, f := range fs {
+					if f.Name == name {
+						return n
+					}
+					if _, kept := other[f.Name]; kept {
+						n++
+					}
+				}
+				return -1
+			}
+			missingOfType, newOfType := map[string]int{}, map[string]int{}
+			for on, bf := range bset {
+				if _, ok := cset[on]; !ok {
+					missingOfType[bf.Type]++
+				}
+			}
+			for nn, cf := range cset {
+				if _, ok := bset[nn]; !ok {
+					newOfType[cf.Type]++
+				}
+			}
 			for on, bf := range bset {
 				if _, ok := cset[on]; ok {
 					continue
@@ -403,7 +455,13 @@ func (p *Prog) installRenames() []string {
 					if _, ok := bset[nn]; ok || cf.Type != bf.Type {
 						continue
 					}
-					sc := 0.6*jaccard(bf.Users, cf.Users) + 0.4*nameSim(on, nn)
+					sc := 0.4*jaccard(bf.Users, cf.Users) + 0.3*nameSim(on, nn)
+					if ordinal(bt.Fields, on, cset) == ordinal(ct.Fields, nn, bset) {
+						sc += 0.3
+					}
+					if missingOfType[bf.Type] == 1 && newOfType[cf.Type] == 1 {
+						sc += 1 // the only field of that type that disappeared and the only one that appeared
+					}
 					cands = append(cands, renameCand{on, nn, sc})
 				}
 			}
